@@ -351,6 +351,51 @@ def shrink(cr: CaseRun, answers: list[str], wall_seed: int, deliver_throw: bool,
     return best, best_ans
 
 
+# --------------------------------------------------------------------------- C15: silent-hook twin
+
+HOOK_KINDS = ("metric", "log", "beforeSleep")
+EXC_KINDS = ("ordinary", "abort", "exhausted", "circuitOpen")     # subclasses of Exception
+
+
+def hook_fault_positions(cr: CaseRun) -> list[int]:
+    """indices (into the oracle answer list) of hook answers that raise an Exception subclass"""
+    pos, i = [], 0
+    for (_, req, ans) in cr.exchanges:
+        if kind_of(req) in ("budgetConsume", "breakerAllow", "breakerSuccess", "breakerFailure", "breakerCancel"):
+            continue                      # component interactions consume no oracle answer
+        if kind_of(req) in HOOK_KINDS and ans.startswith("raise ") and ans.split()[1].split(":")[0] in EXC_KINDS:
+            pos.append(i)
+        i += 1
+    return pos
+
+
+def silent_twin(cr: CaseRun, answers: list[str], meta: dict) -> dict | None:
+    """Re-run the case with every Exception raised by an observability hook replaced by a normal
+    return of the same duration; the run must be identical up to those answers (C15)."""
+    pos = hook_fault_positions(cr)
+    if not pos:
+        return None
+    scrubbed = list(answers)
+    for i in pos:
+        scrubbed[i] = "unit " + scrubbed[i].split()[-1]
+    twin = replay_case("twin", cr.cfg, cr.script, scrubbed, meta["wall_seed"], meta["deliver_throw"])
+    if twin is None:
+        return {"sig": "C15/twin-consumes-more-answers", "detail": "silent-hook twin ran out of answers"}
+    a = [(s, r, x) for (s, r, x) in cr.exchanges]
+    b = [(s, r, x) for (s, r, x) in twin.exchanges]
+    if len(a) != len(b):
+        return {"sig": "C15/different-exchanges", "detail": f"{len(a)} exchanges with faulty hooks, {len(b)} with silent hooks"}
+    for (x, y) in zip(a, b):
+        if x[:2] != y[:2] or (x[2] != y[2] and not (kind_of(x[1]) in HOOK_KINDS and x[2].startswith("raise"))):
+            return {"sig": f"C15/diverges-at/{kind_of(x[1])}", "detail": f"faulty: `{x[1]} => {x[2]}`  silent: `{y[1]} => {y[2]}`"}
+    ra, rb = [s.res for s in cr.steps], [s.res for s in twin.steps]
+    if ra != rb:
+        return {"sig": "C15/different-result", "detail": f"faulty hooks: {ra}  silent hooks: {rb}"}
+    if cr.final_state != twin.final_state:
+        return {"sig": "C15/different-component-state", "detail": f"{cr.final_state} vs {twin.final_state}"}
+    return {}
+
+
 # --------------------------------------------------------------------------- main entry
 
 @dataclass
@@ -414,12 +459,109 @@ def run_batch(cases: list[tuple[CaseRun, dict]], res: LoopResult, counters: dict
                                  "detail": v.first_div or "?", "replay": cr.text, "meta": meta})
 
 
-def run(tier: str, seed: int, props: list[str] | None = None, n_cases: int | None = None) -> dict:
+# --------------------------------------------------------------------------- small-scope exhaustive DFS
+
+def dfs_alphabet(kind: str, info: dict, o) -> list:
+    rem = max(info.get("remaining", 0), 0)
+    if kind == "abortIf":
+        return [Ans("bool", False, dur=0), Ans("bool", True, dur=0)]
+    if kind == "op":
+        return [lambda: Ans("raise", f"ordinary:{o.fresh()}:UNKNOWN", dur=0),
+                lambda: Ans("value", o.fresh(), dur=0),
+                lambda: Ans("raise", f"ordinary:{o.fresh()}:UNKNOWN", dur=rem + 1),
+                Ans("raise", "cancelled", dur=0)]
+    if kind == "classify":
+        return [Ans("klass", "TRANSIENT", None, dur=0), Ans("klass", "UNKNOWN", None, dur=0),
+                Ans("klass", "PERMANENT", None, dur=0)]
+    if kind == "resultClassify":
+        return [Ans("noFailure", dur=0), Ans("klass", "TRANSIENT", None, dur=0)]
+    if kind == "strategy":
+        r = info.get("remaining_s", rem)
+        return [Ans("delay", "1", dur=0), Ans("delay", "nan", dur=0), Ans("delay", str(r + 1), dur=0)]
+    if kind == "sleepHandler":
+        return [Ans("decision", "sleep", dur=0), Ans("decision", "defer", dur=0), Ans("decision", "abort", dur=0)]
+    if kind == "sleeper":
+        d = info.get("d", 0)
+        return [Ans("unit", dur=d), Ans("unit", dur=d + 100)]
+    if kind in ("metric", "log", "beforeSleep"):
+        return [Ans("unit", dur=0), lambda: Ans("raise", f"ordinary:{o.fresh()}:UNKNOWN", dur=0)] if info.get("hook_faults") else [Ans("unit", dur=0)]
+    return [Ans("unit", dur=0)]
+
+
+def dfs_configs() -> list[tuple[str, LoopCfg, list]]:
+    out = []
+
+    def mk(name, **kw):
+        c = LoopCfg()
+        c.max_attempts = kw.pop("max_attempts", 2)
+        c.deadline = kw.pop("deadline", 10)
+        c.max_unknown = kw.pop("max_unknown", 1)
+        c.per_class = kw.pop("per_class", {})
+        c.strat_default = kw.pop("strat_default", "ctx")
+        c.budget = kw.pop("budget", None)
+        c.breaker = kw.pop("breaker", None)
+        c.flags = set(kw.pop("flags", []))
+        c.kind = kw.pop("kind", "Retry")
+        c.operation = "op"
+        script = kw.pop("script", [("call",)])
+        out.append((name, c, script))
+
+    mk("retry-call-abort", flags=["abort_if", "metric"])
+    mk("retry-exec-abort", flags=["abort_if", "metric"], script=[("execute",)])
+    mk("retry-call-handler", flags=["c_handler", "metric", "c_sleeper"], max_attempts=3)
+    mk("retry-exec-handler-result", flags=["c_handler", "log", "result_classifier", "timeline"], script=[("execute",)])
+    mk("retry-call-budget", flags=["metric", "result_classifier"], budget=(1, 5), max_attempts=3, per_class={"TRANSIENT": 1})
+    mk("policy-call-breaker", kind="Policy", flags=["metric"],
+       breaker={"threshold": 1, "window": 10, "recovery": 5, "trip": ["TRANSIENT", "UNKNOWN"], "cls": {}},
+       script=[("call",), ("advance", 5), ("call",)])
+    mk("policy-exec-breaker-async", kind="Policy", flags=["log", "async", "abort_if"],
+       breaker={"threshold": 1, "window": 10, "recovery": 5, "trip": ["UNKNOWN"], "cls": {}},
+       script=[("execute",), ("advance", 5), ("execute",)])
+    mk("policy-noretry", kind="Policy", flags=["no_retry", "metric", "c_attempt_end", "abort_if"],
+       breaker={"threshold": 1, "window": 10, "recovery": 5, "trip": ["UNKNOWN"], "cls": {}},
+       script=[("call",), ("advance", 5), ("execute",)])
+    mk("retry-call-hookfaults", flags=["metric", "log", "p_before_sleep"], max_attempts=2)
+    return out
+
+
+def run_dfs(res: LoopResult, counters: dict, max_runs_per_cfg: int) -> dict:
+    """Enumerate ALL oracle choice sequences over the reduced alphabet for a few small configurations."""
+    report = {}
+    for name, cfg, script in dfs_configs():
+        prefix: list[int] | None = []
+        n = 0
+        batch: list = []
+        complete = True
+        while prefix is not None:
+            o = DfsOracle(prefix, dfs_alphabet)
+            o_choose = o.choose
+
+            def choose(kind, info, _c=o_choose, _n=name):
+                info["hook_faults"] = _n.endswith("hookfaults")
+                return _c(kind, info)
+            o.choose = choose  # type: ignore[method-assign]
+            cr = run_case(f"dfs_{name}_{n}", cfg, script, o, 0, cfg.has("async"))
+            batch.append((cr, {"wall_seed": 0, "deliver_throw": cfg.has("async"), "dfs": name}))
+            n += 1
+            if len(batch) >= 500:
+                run_batch(batch, res, counters, LOOP_PROPS)
+                batch = []
+            prefix = next_prefix(o.path)
+            if n >= max_runs_per_cfg:
+                complete = prefix is None
+                break
+        if batch:
+            run_batch(batch, res, counters, LOOP_PROPS)
+        report[name] = {"runs": n, "complete": complete}
+    return report
+
+
+def run(tier: str, seed: int, props: list[str] | None = None, n_cases: int | None = None, scale: float = 1.0) -> dict:
     t0 = wall()
     rng = random.Random(seed * 7919 + 11)
     res = LoopResult()
-    counters = {k: Counter() for k in ("entry", "stop", "kind", "req", "raise_at")}
-    n = n_cases if n_cases is not None else (20000 if tier == "quick" else 250000)
+    counters = {k: Counter() for k in ("entry", "stop", "kind", "req", "raise_at", "twin")}
+    n = n_cases if n_cases is not None else int((20000 if tier == "quick" else 250000) * min(scale, 2.0))
     batch: list = []
     for i in range(n):
         cfg, prof = gen_cfg(rng)
@@ -436,14 +578,27 @@ def run(tier: str, seed: int, props: list[str] | None = None, n_cases: int | Non
             return _o(kind, info)
         oracle.choose = choose  # type: ignore[method-assign]
         cr = run_case(f"s{seed}_{i}", cfg, script, oracle, wall_seed, deliver_throw)
-        batch.append((cr, {"wall_seed": wall_seed, "deliver_throw": deliver_throw}))
+        meta = {"wall_seed": wall_seed, "deliver_throw": deliver_throw}
+        batch.append((cr, meta))
+        answers = [ln[2:] for ln in cr.text.splitlines() if ln.startswith("a ")]
+        tw = silent_twin(cr, answers, meta)
+        if tw is not None:
+            counters["twin"]["compared"] += 1
+            if tw:
+                res.failures.append({"property": "C15", "kind": "violation", "sig": tw["sig"],
+                                     "detail": "run with faulty hooks differs from the run with silent hooks: "
+                                               + tw["detail"], "replay": cr.text, "meta": meta})
         if len(batch) >= 400:
             run_batch(batch, res, counters, props or LOOP_PROPS)
             batch = []
     if batch:
         run_batch(batch, res, counters, props or LOOP_PROPS)
+    dfs_report = {}
+    if tier == "thorough" and n_cases is None:
+        dfs_report = run_dfs(res, counters, max_runs_per_cfg=60000)
     return {
         "family": "loop",
+        "dfs": dfs_report,
         "evaluations": res.evaluations,
         "calls": res.steps,
         "distinct_nontrivial": len(res.distinct),
@@ -452,7 +607,7 @@ def run(tier: str, seed: int, props: list[str] | None = None, n_cases: int | Non
                 "kinds with raise marks, result shape) signatures; non-trivial = at least one failed attempt",
         "samples": res.samples,
         "distribution": {k: dict(v.most_common(40)) for k, v in counters.items()},
-        "exhaustive": False,
+        "exhaustive": bool(dfs_report) and all(v["complete"] for v in dfs_report.values()),
         "failures": res.failures,
         "wall_s": round(wall() - t0, 2),
     }
